@@ -96,6 +96,7 @@ def __extract_segments(
         data: t.Union[GeneralJSONSerialization, FlattenedJSONSerialization]
 ) -> t.Tuple[t.Dict[str, bytes], t.Dict[str, bytes], t.Optional[bytes]]:
     base64_segments: t.Dict[str, bytes] = {
+        "aad": to_bytes(data["protected"]),
         "iv": to_bytes(data["iv"]),
         "ciphertext": to_bytes(data["ciphertext"]),
         "tag": to_bytes(data["tag"]),
